@@ -53,9 +53,9 @@ fn once_body<const NV: usize, const NA: usize>(fast_start: bool, audio: bool) {
     core::mem::forget((w, r, r2, r3, r4));
 }
 
-//@ prop=C06 tier=quick cost=300 fns="Mp4Writer::finalize,finalize_standard,write_counted,write_video_sample_with_dts,write_audio_sample" bound="standard, 2 video samples, all pts" unwind=6 stubs="build_moov_box(recording stand-in)" timeout=1200
+//@ prop=C06 tier=quick cost=93 fns="Mp4Writer::finalize,finalize_standard,write_counted,write_video_sample_with_dts,write_audio_sample" bound="standard, 2 video samples, all pts" unwind=6 stubs="build_moov_box(recording stand-in)" timeout=1200
 h!(c06_once_std_v2, 6, { once_body::<2, 0>(false, false) });
-//@ prop=C06 tier=quick cost=400 fns="Mp4Writer::finalize,finalize_fast_start,write_counted" bound="fast start, 1 video + 1 audio sample, all pts" unwind=6 stubs="build_moov_box(recording stand-in)" timeout=1200
+//@ prop=C06 tier=quick cost=153 fns="Mp4Writer::finalize,finalize_fast_start,write_counted" bound="fast start, 1 video + 1 audio sample, all pts" unwind=6 stubs="build_moov_box(recording stand-in)" timeout=1200
 h!(c06_once_fast_v1a1, 6, { once_body::<1, 1>(true, true) });
 //@ prop=C06 tier=thorough cost=400 fns="Mp4Writer::finalize,finalize_standard,write_counted" bound="standard, 1 video + 1 audio sample" unwind=6 stubs="build_moov_box(recording stand-in)" timeout=2500
 h!(c06_once_std_v1a1, 6, { once_body::<1, 1>(false, true) });
@@ -135,19 +135,19 @@ fn build_writer_with_deltas<const NV: usize, const NA: usize>(vpts: [u64; NV], a
         if NV > 0 { Some(1000 * (NV as u64 - 1)) } else { None }, vlast, if NA > 0 { Some(apts[NA - 1]) } else { None }, alast, None, false, 0)
 }
 
-//@ prop=C06 tier=quick cost=60 fns="Mp4Writer::max_end_pts" bound="2 video + 1 audio samples, all pts < 2^62, any last deltas (reordered video whose earlier sample ends later is excluded while KF-C06 is listed)" unwind=6
+//@ prop=C06 tier=quick cost=11 fns="Mp4Writer::max_end_pts" bound="2 video + 1 audio samples, all pts < 2^62, any last deltas (reordered video whose earlier sample ends later is excluded while KF-C06 is listed)" unwind=6
 #[kani::proof]
 #[kani::unwind(6)]
 pub fn c06_max_end_v2a1() {
     end_body::<2, 1>(crate::known::KF_C06_MAX_END_PTS_USES_LAST_SAMPLE);
 }
-//@ prop=C06 tier=quick cost=60 fns="Mp4Writer::max_end_pts" bound="1 video + 2 audio samples" unwind=6 covers_optional="reordered"
+//@ prop=C06 tier=quick cost=12 fns="Mp4Writer::max_end_pts" bound="1 video + 2 audio samples" unwind=6 covers_optional="reordered"
 #[kani::proof]
 #[kani::unwind(6)]
 pub fn c06_max_end_v1a2() {
     end_body::<1, 2>(crate::known::KF_C06_MAX_END_PTS_USES_LAST_SAMPLE);
 }
-//@ prop=C06 tier=quick cost=60 fns="Mp4Writer::max_end_pts" bound="2 video samples, reordered" unwind=6 expect=fail kf=KF-C06-max-end-pts-uses-last-sample
+//@ prop=C06 tier=quick cost=7 fns="Mp4Writer::max_end_pts" bound="2 video samples, reordered" unwind=6 expect=fail kf=KF-C06-max-end-pts-uses-last-sample
 #[kani::proof]
 #[kani::unwind(6)]
 pub fn c06_w_max_end_reordered() {
@@ -163,7 +163,7 @@ fn api_muxer(fast: bool) -> muxide::api::Muxer<RecSink> {
     }
 }
 
-//@ prop=C06 tier=quick cost=500 fns="api::Muxer::finish_in_place_with_stats,finish_in_place,write_video,write_video_with_dts,write_audio,encode_video" bound="API muxer (VP9+Opus) with 1 video + 1 audio frame at concrete times; every later call with symbolic arguments" unwind=12 stubs="build_moov_box(recording stand-in)" timeout=1500
+//@ prop=C06 tier=quick cost=253 fns="api::Muxer::finish_in_place_with_stats,finish_in_place,write_video,write_video_with_dts,write_audio,encode_video" bound="API muxer (VP9+Opus) with 1 video + 1 audio frame at concrete times; every later call with symbolic arguments" unwind=12 stubs="build_moov_box(recording stand-in)" timeout=1500
 h!(c06_api_finish_once, 12, {
     no_carrier();
     let mut m = api_muxer(kani::any());
